@@ -272,7 +272,7 @@ func runC19(r *core.Run) {
 				if len(x.bytes) <= 200000 {
 					cs.File = base64.StdEncoding.EncodeToString(x.bytes)
 				} else {
-					dir := filepath.Join(core.VerifDir(), "replays", r.Prop)
+					dir := filepath.Join(core.OutDir(), "replays", r.Prop)
 					_ = os.MkdirAll(dir, 0o755)
 					cs.Path = filepath.Join(dir, fmt.Sprintf("witness-%016x.bin", fnv64(x.bytes)))
 					_ = os.WriteFile(cs.Path, x.bytes, 0o644)
